@@ -5,12 +5,14 @@ from . import sysgen, sysinterp
 COMPARE = ["offered", "accepted", "outcome", "probes", "ctx"]
 
 
-def run_programs(ctx, n, profile, oracle, label="prog", nontrivial=None, name="correspondence:sys-model", compare=None):
+def run_programs(ctx, n, profile, oracle, label="prog", nontrivial=None, name="correspondence:sys-model", compare=None, transform=None):
     """`compare`: the observation keys this property's theorems speak about (others are not compared, so
     that a change irrelevant to the property does not break its tie)."""
     compare = compare or COMPARE
     rng = ctx.rng(label)
     cases = [sysgen.gen_case(rng, profile) for _ in range(n)]
+    if transform:
+        cases = [transform(c, rng) for c in cases]
     model = lean_driver("Driver/Sys.lean", cases)
     agree = 0
     for case, mo in zip(cases, model):
